@@ -66,7 +66,10 @@ fn main() {
             let code = match id.as_str() {
                 "C02" => drive(&c02::C02, tier),
                 "C04" => drive(&c04::C04, tier),
-                "C05" => drive(&c05::C05, tier),
+                "C05" => {
+                    framework::silence_library_stdout();
+                    drive(&c05::C05, tier)
+                }
                 "C06" => drive(&c06::C06, tier),
                 "C07" | "C08" | "C18" | "C19" | "C20" => {
                     let id: &'static str = Box::leak(id.clone().into_boxed_str());
@@ -99,7 +102,10 @@ fn main() {
             let code = match doc["property"].as_str().unwrap_or("") {
                 "C02" => replay(&c02::C02, &doc),
                 "C04" => replay(&c04::C04, &doc),
-                "C05" => replay(&c05::C05, &doc),
+                "C05" => {
+                    framework::silence_library_stdout();
+                    replay(&c05::C05, &doc)
+                }
                 "C06" => replay(&c06::C06, &doc),
                 id @ ("C07" | "C08" | "C18" | "C19" | "C20") => {
                     let id: &'static str = Box::leak(id.to_string().into_boxed_str());
